@@ -419,7 +419,7 @@ PROPERTY = {
     "level": "other",
     "explanation": "Truncation: the discarded part's Frobenius norm is proved <= epsilon for every coefficient value, every epsilon and register sizes odd and even "
                    "(z3, nonlinear real arithmetic over the AST of the real method). Trimming: expectation values are proved unchanged for every rotation angle on "
-                   "every enumerated component pattern and operator (exact ring). Tapering works on numpy bit matrices and eigenvalues: bounded native contract runs.",
+                   "every enumerated component pattern and operator (exact ring). Unbounded: the discarding loop for operators with ANY number of terms (P1: inductive invariant - discarded mass within the bound, discarded terms form a prefix - re-established by a generic iteration, z3). Tapering works on numpy bit matrices and eigenvalues: bounded native contract runs, also for operators other than the Hamiltonian (terms anticommuting with 0 / 1 / 2 generators).",
     "bounds": {"quick": "truncation: n = 2..6 qubits, 1-3 terms; trimming: 20 single-qubit component patterns x 7 x entangled pair or not (every 3rd) x 11 operators on 4 qubits; tapering: H2 in JW/BK/JKMN x orderings, H4+",
                "thorough": "n <= 8; all patterns; H4"},
     "assumptions": ["Frobenius norm >= operator norm and Weyl's inequality (cited)", "floats as reals", "tapering spectra: floating-point eigenvalues (1e-7), bounded stand-in"],
